@@ -61,6 +61,8 @@ def harness(tier, seed):
                     if not (0.0 <= z <= 1e100):
                         return 1e200, None
                     js.append((z, len(ode) - 1))
+                if not js:
+                    return 1e200, None
                 if cls is FigureOfMerit:
                     v = float(np.mean([z for z, _ in js]))
                 else:
@@ -77,7 +79,8 @@ def harness(tier, seed):
                     trace.append(op)
                     info = {"system": system.name, "controller": ctrl.name, "objective": cls.__name__, "trace": list(trace)}
                     if op == "eval":
-                        scale = rng.choice([0.1, 1.0, 3.0, 10.0])
+                        # 1e30: every training case fails at once (the result must be the failure value 1e200)
+                        scale = rng.choice([0.1, 1.0, 3.0, 10.0, 1e30])
                         x = np.array([rng.uniform(-1, 1) * scale for _ in range(ctrl.param_dims)])
                         info["x"] = x.tolist()
                         import signal
